@@ -8,6 +8,7 @@
   (d) compile_correct: code emitted by the grammar actions, run on the VM model, computes `eval` (fragments)
   (e) the string operators: sizedstr.c (Gen.SizedStr, REGENERATED) = the byte-list specification, for all byte lists
   (f) the match-list opcodes: exec.c (Gen.MatchOps, REGENERATED) = what the VM model computes on (offset, length) views
+  (g) sets as written: an exact item denotes one identifier, `p*` the identifiers with that prefix (Cond.setDenotes)
 -/
 import YaraModel.Gen.Precedence
 import YaraModel.Lemmas.Cond
@@ -390,6 +391,24 @@ example : OP_LENGTH [⟨0, 3, 700, 512⟩, ⟨0, 900, 2, 2⟩] 1 = 700 ∧ OP_OF
     OP_COUNT_IN [⟨0, 3, 700, 512⟩, ⟨0, 900, 2, 2⟩] 3 899 = 1 ∧ Sorted [⟨0, 3, 700, 512⟩, ⟨0, 900, 2, 2⟩] := by
   refine ⟨by decide, by decide, by decide, ?_⟩
   simp [Sorted, view, C.add, C.wrap]
+
+/-! ## (g) sets as written: which strings / rules an item denotes -/
+
+/-- an item without `*` denotes exactly the strings (rules) whose identifier IS the item: `($a)` never contains `$ab` -/
+theorem exact_item_denotes_exactly (names : List String) (ident : String) (j : Nat) :
+    j ∈ (SetItem.exact ident).denotes names ↔ j < names.length ∧ names.getD j "" = ident := by
+  simp [SetItem.denotes]
+
+/-- an item `p*` denotes exactly the identifiers that start with `p` -/
+theorem wild_item_denotes_prefixed (names : List String) (pfx : String) (j : Nat) :
+    j ∈ (SetItem.wild pfx).denotes names ↔ j < names.length ∧ pfx.toList.isPrefixOf (names.getD j "").toList = true := by
+  simp [SetItem.denotes]
+
+/-- the situation of seeded defect C04-m8: with strings `$a`, `$ab`, `$a1` the set `($a)` is `$a` alone, `($a*)` all three,
+    `($a, $a*)` has `$a` twice (it is pushed twice), `them` all three; likewise for rules `ra`, `rab` -/
+example : setDenotes ["$a", "$ab", "$a1"] [.exact "$a"] = [0] ∧ setDenotes ["$a", "$ab", "$a1"] [.wild "$a"] = [0, 1, 2] ∧
+    setDenotes ["$ab", "$a", "$a1"] [.exact "$a", .wild "$a"] = [1, 0, 1, 2] ∧ setDenotes ["$a", "$ab", "$a1"] [.them] = [0, 1, 2] ∧
+    setDenotes ["rab", "ra"] [.exact "ra"] = [1] ∧ setDenotes ["rab", "ra"] [.wild "ra"] = [0, 1] := by decide
 
 /-! ## (d) compile_correct -/
 
